@@ -1,5 +1,6 @@
 from __future__ import annotations
 
+import dataclasses
 import logging
 from collections import defaultdict
 from pathlib import Path
@@ -1003,7 +1004,8 @@ class StubsStringGenerator:
                     alias = qualified_import.alias
 
             if alias:
-                node.name = alias
+                # Rename a copy: the API model itself must not change while stubs are generated
+                node = dataclasses.replace(node, name=alias)
 
             self.reexport_modules[shortest_reexport_module_id].append(node)
             return True
